@@ -52,11 +52,10 @@ class DynModel(Model):
                                                     z3.And(self.BAT(K) != 0, (self.BAT(K) + self.BM + self.spb) * 512 <= self.fsize)))]
 
     def guest_def(self, x):  # SPEC
-        s = x / 512
-        blk = s / self.spb
-        off = s % self.spb
+        s, b, f1 = ediv(x, z3.IntVal(512))
+        blk, off, f2 = ediv(s, self.spb)
         e = self.BAT(blk)
-        return z3.If(e == U32, 0, z3.Select(self.farr, (e + self.BM + off) * 512 + x % 512))
+        return z3.If(e == U32, 0, z3.Select(self.farr, (e + self.BM + off) * 512 + b)), [f1, f2]
 
     def bat_getitem(self, eng, st, idx, node):
         # contract of BlockAllocationTable.__getitem__ / get (proved below): ValueError unless 0 <= block < max_entries;
